@@ -22,7 +22,6 @@ PARTIAL_CALLS = {
     'builtins.int': ('ValueError',),        # also > max_str_digits
     'builtins.float': ('ValueError',),
     'builtins.chr': ('ValueError',),   # OverflowError needs an int beyond C long
-    'builtins.ord': ('TypeError',),
     'builtins.next': ('StopIteration',),
     'builtins.eval': ('Exception',),
     'builtins.getattr2': ('AttributeError',),
@@ -130,7 +129,11 @@ class Analyzer:
         if not (isinstance(arg, ast.Attribute) and arg.attr == 'value' and
                 isinstance(arg.value, ast.Name) and arg.value.id in percall):
             return None
-        doc = ast.get_docstring(fi.node, clean=False)
+        try:
+            from sa import grammar as _g
+            doc = _g.effective_token_regex(fi.name)
+        except Exception:
+            doc = ast.get_docstring(fi.node, clean=False)
         if not doc:
             return None
         try:
@@ -376,6 +379,12 @@ class Analyzer:
             nested = fi.qualname + '.' + f.id
             if nested in fi.module.functions:
                 callees.append(fi.module.functions[nested])
+        elif d is None and isinstance(f, ast.Attribute) and isinstance(
+                f.value, ast.Name) and f.value.id in ('self', 'cls') and \
+                fi.cls is not None:
+            m = repo.find_method(fi.cls, f.attr)
+            if m is not None:
+                callees.append(m)
         # nested functions passed as callbacks (re.sub(decode_match, s))
         for a in list(call.args) + [k.value for k in call.keywords]:
             if isinstance(a, ast.Name):
@@ -600,6 +609,86 @@ def check_positions(repo, rep, an):
     rep.floor('parsing-exception constructions on the parse path', n, 2)
 
 
+def check_input_is_the_text(repo, rep):
+    """R03g: the text handed to ply is the caller's text itself, so that
+    token positions index the caller's input."""
+    n = 0
+    for fi, call in c01.parse_sites(repo):
+        if not call.args:
+            continue
+        n += 1
+        arg = call.args[0]
+        site = fi.key + '/parsed-text'
+        if not isinstance(arg, ast.Name) or arg.id not in fi.params():
+            rep.ob('R03g', site, False,
+                   'ply is given `%s`, not the caller\'s expression text: '
+                   'error positions index that other string and can lie '
+                   'outside the input' % model.norm(arg),
+                   loc=fi.module.loc(call), construct=model.norm(call))
+            continue
+        g = cfgmod.CFG(fi.node)
+        use = g.node_of(call)
+        defs = cfgmod.reaching_defs(g, use, arg.id) if use else []
+        bad = [d for d in defs if d is not g.entry and not (
+            isinstance(d.ast, ast.Assign) and isinstance(
+                d.ast.value, ast.Call) and isinstance(
+                d.ast.value.func, ast.Name) and
+            d.ast.value.func.id == 'str')]
+        rep.ob('R03g', site, not bad,
+               'the expression text is rewritten before it is parsed (%s): '
+               'positions reported by the lexer/parser refer to the '
+               'rewritten text, not to the caller\'s input, and can lie '
+               'outside it' % [model.norm(d.ast) for d in bad],
+               loc=fi.module.loc(bad[0].ast if bad else call),
+               construct=model.norm(bad[0].ast) if bad else '')
+    rep.floor('parse call sites', n, 1)
+
+
+def check_token_regexes_terminate(repo, rep):
+    """R03h: no token / escape regex has exponential ambiguity (the lexer
+    uses a backtracking engine: such a rule does not terminate in practice
+    on a long non-matching input), and none matches the empty string."""
+    from sa import grammar, regexlang
+    import re as _re
+    V = _re.UNICODE | _re.VERBOSE
+    n = 0
+    for name in grammar.token_rule_names():
+        rx = grammar.effective_token_regex(name)
+        n += 1
+        try:
+            amb = regexlang.exponential_ambiguity(rx, V)
+        except regexlang.Unsupported as e:
+            rep.note('%s: %s' % (name, e))
+            continue
+        rep.ob('R03h', 'yaql.language.lexer:Lexer.%s/regex' % name,
+               amb is None,
+               'the token regex %s is exponentially ambiguous (%s): on an '
+               'input that almost matches, the backtracking search tries '
+               'exponentially many splits before the lexer can report the '
+               'error -- parsing does not terminate in practice' % (
+                   rx.strip(), amb), construct=rx.strip())
+    lexm = repo.module('yaql.language.lexer')
+    for cname, node in lexm.constants.items():
+        if isinstance(node, ast.Call) and repo.resolve(
+                lexm, node.func) == 're.compile' and node.args and \
+                isinstance(node.args[0], ast.Constant):
+            fl = 0
+            if len(node.args) > 1:
+                for x in ast.walk(node.args[1]):
+                    if isinstance(x, ast.Attribute) and hasattr(_re, x.attr):
+                        fl |= getattr(_re, x.attr)
+            n += 1
+            try:
+                amb = regexlang.exponential_ambiguity(node.args[0].value, fl)
+            except regexlang.Unsupported as e:
+                rep.note('%s: %s' % (cname, e))
+                continue
+            rep.ob('R03h', 'yaql.language.lexer:%s' % cname, amb is None,
+                   'regex %s is exponentially ambiguous (%s)' % (cname, amb),
+                   loc=lexm.loc(node))
+    rep.floor('lexer regexes examined for ambiguity', n, 8)
+
+
 def check_hooks(repo, rep, an):
     lexm = repo.module('yaql.language.lexer')
     parm = repo.module('yaql.language.parser')
@@ -634,6 +723,10 @@ def run(repo, rep):
     rep.rule('R03c', 'p_error raises a YAQL parsing exception on every path')
     rep.rule('R03d', 'ONLY-YAQL-RAISES: every explicit raise that can '
              'escape the parse path raises a YaqlParsingException subclass')
+    rep.rule('R03g', 'INPUT-IS-THE-TEXT: the string handed to ply parse() '
+             'is the caller\'s expression parameter, not rewritten')
+    rep.rule('R03h', 'TOKEN-REGEXES-TERMINATE: no token or escape regex is '
+             'exponentially ambiguous (EDA test on its automaton)')
     rep.rule('R03e', 'POSITION-PROVENANCE: reported positions are None or '
              'the unmodified token position')
     rep.trusted += ['ply: token loop advances lexpos, refuses empty-matching '
@@ -682,3 +775,5 @@ def run(repo, rep):
     rep.floor('entry points (token/grammar/engine)', len(entries), 26)
     check_hooks(repo, rep, an)
     check_positions(repo, rep, an)
+    check_input_is_the_text(repo, rep)
+    check_token_regexes_terminate(repo, rep)
